@@ -94,6 +94,9 @@ def _expire_spec(ex, st, post, result):
 contract(C + 'TileManager.expire_timestamp', props=['C13'],
          types=dict(tile='opaque'), returns='opt[real]', modifies=[],
          default_callee='opaque', opaque_spec={'before_timestamp_from_options': {'returns': 'real', 'pure': True}},
+         # (the rule was parsed once when the configuration was loaded; a rule that cannot be evaluated - unreadable mtime file -
+         # raises SeedConfigurationError from before_timestamp_from_options' own contract and is not modelled at serving time)
+         opaque=['before_timestamp_from_options'],
          trace=[_expire_spec])
 
 
@@ -158,3 +161,44 @@ contract('mapproxy.cache.file:FileCache.load_tile_metadata', props=['C13', 'C20'
          opaque=['tile_location'],
          raises={'OSError': True},
          trace=[_metadata_from_lstat])
+
+
+# ---- seed/cleanup configuration: which threshold a `refresh_before` / `remove_before` option means -------------------------------------
+def _threshold_source(ex, st, post, result):
+    import z3
+    from pyvc.values import VStr, eq
+    conf = post.env['conf']
+    iso = [e for i, e in T.evs(st, 'timestamp_from_isodate')]
+    mt = [e for i, e in T.evs(st, 'getmtime')]
+    tb = [e for i, e in T.evs(st, 'timestamp_before')]
+    ins = {e.args[1].conc(): e for i, e in T.evs(st, 'contains') if len(e.args) == 2 and isinstance(e.args[1], VStr)}
+    has_time = ex.truth(st, ins['time'].result) if 'time' in ins else z3.BoolVal(False)
+    has_mtime = ex.truth(st, ins['mtime'].result) if 'mtime' in ins else z3.BoolVal(False)
+    g = z3.BoolVal(len(iso) + len(mt) + len(tb) == 1 and 'time' in ins)
+    if iso:
+        g = z3.And(g, has_time, z3.BoolVal(result is iso[0].result))
+    elif mt:
+        ap = [e for i, e in T.evs(st, 'abspath')]
+        g = z3.And(g, z3.Not(has_time), has_mtime, z3.BoolVal(result is mt[0].result and len(ap) == 1 and mt[0].args[0] is ap[0].result))
+    elif tb:
+        g = z3.And(g, z3.Not(has_time), z3.Not(has_mtime), z3.BoolVal(result is tb[0].result))
+        gets = {e.args[0].conc(): e for i, e in T.evs(st, 'get') if e.args and isinstance(e.args[0], VStr) and e.recv is not None and e.recv.t.eq(conf.t)}
+        for unit in ('weeks', 'days', 'hours', 'minutes', 'seconds'):
+            okk = unit in tb[0].kwargs and unit in gets and tb[0].kwargs[unit] is gets[unit].result and len(gets[unit].args) == 2
+            g = z3.And(g, z3.BoolVal(bool(okk)))
+            if okk:
+                g = z3.And(g, gets[unit].args[1].t == 0)
+        g = z3.And(g, z3.BoolVal(set(tb[0].kwargs) == {'weeks', 'days', 'hours', 'minutes', 'seconds'} and not tb[0].args))
+    yield ('threshold_is_what_the_option_says', g,
+           "an explicit 'time' wins (parsed as ISO date), else the modification time of the 'mtime' file, else now minus the given "
+           'weeks/days/hours/minutes/seconds - each unit taken from its own key, 0 when absent')
+
+
+contract('mapproxy.seed.config:before_timestamp_from_options', props=['C13'],
+         types=dict(conf='opaque'), returns='opaque', default_callee='opaque',
+         opaque_spec={'timestamp_from_isodate': {'raises': ['ValueError'], 'pure': True}, 'getmtime': {'raises': ['OSError'], 'pure': True},
+                      'abspath': {'pure': True}, 'timestamp_before': {'pure': True}, 'get': {'pure': True},
+                      'contains': {'returns': 'bool', 'pure': True}},
+         opaque=['timestamp_from_isodate', 'timestamp_before', 'abspath'],
+         raises={'SeedConfigurationError': True},
+         trace=[_threshold_source])
